@@ -267,3 +267,87 @@ Proof.
     { destruct Hc as [->|[->| ->]]; [reflexivity|rewrite Z.eqb_refl, orb_true_r; reflexivity|apply orb_true_r]. }
     rewrite E. split; reflexivity.
 Qed.
+
+(* ---------------------------------------------------------------- sequences of comments *)
+Definition step_in : Type := (Z * list Z * list Z * Z)%type.       (* type, text, clock string, mtime *)
+Fixpoint run_seq (c : cfg) (name : list Z) (steps : list step_in) (s : st) : st :=
+  match steps with
+  | [] => s
+  | (ct, content, clock, mt) :: r => run_seq c name r (next_state s (recommend c name ct content clock mt s))
+  end.
+Definition score_after (start : Z) (steps : list step_in) : Z :=
+  fold_left (fun sc (st : step_in) => clamp (sc + delta (fst (fst (fst st))))) steps start.
+
+Lemma frame_names (d d' : list Z) i : length d' = length d ->
+  (forall k, ~ (i * REC_SZ + 28 <= k < i * REC_SZ + 32)%nat -> k <> (i * REC_SZ + 33)%nat -> nth_error d' k = nth_error d k) ->
+  forall k, (k < length d / REC_SZ)%nat ->
+    rec_name (rec_at d' k) = rec_name (rec_at d k) /\ rec_filemode (rec_at d' k) = rec_filemode (rec_at d k).
+Proof.
+  intros Hlen Hfr k Hk. pose proof (entry_in_range d k Hk) as Hr. change REC_SZ with 128%nat in *.
+  assert (Hj : forall j, (j < 128)%nat -> ~ (28 <= j < 34)%nat -> nth_error (rec_at d' k) j = nth_error (rec_at d k) j).
+  { intros j Hj Hn. unfold rec_at. change REC_SZ with 128%nat. rewrite !slice_nth by lia. apply Hfr; lia. }
+  split.
+  - unfold rec_name. apply nth_error_ext. intros j. destruct (Nat.lt_ge_cases j 28) as [H|H].
+    + rewrite !nth_firstn by lia. apply Hj; lia.
+    + assert (L : forall x : list Z, length x = 128%nat -> nth_error (firstn 28 x) j = None)
+        by (intros x Hx; apply nth_error_None; rewrite firstn_length; lia).
+      rewrite !L; [reflexivity| |]; unfold rec_at; change REC_SZ with 128%nat; apply slice_length; lia.
+  - unfold rec_filemode, OFF_FILEMODE. pose proof (Hj 124%nat ltac:(lia) ltac:(lia)) as H.
+    destruct (nth_error (rec_at d k) 124) as [v|] eqn:Ev.
+    + rewrite (nth_of_nth_error _ _ _ H), (nth_of_nth_error _ _ _ Ev). reflexivity.
+    + apply nth_error_None in Ev. unfold rec_at in Ev. change REC_SZ with 128%nat in Ev. rewrite slice_length in Ev; lia.
+Qed.
+
+Lemma find_entry_ext (d d' name : list Z) n :
+  (forall k, (k < n)%nat -> rec_name (rec_at d' k) = rec_name (rec_at d k)) ->
+  find_entry d' name n = find_entry d name n.
+Proof.
+  induction n as [|n IH]; intros H; [reflexivity|]. cbn [find_entry]. rewrite (H n) by lia. rewrite IH; [reflexivity|].
+  intros k Hk. apply H. lia.
+Qed.
+
+(* along EVERY sequence of comments on an article that accepts comments, from every start score in range:
+   the score after the sequence is the fold of clamp(. + delta), and it is in range after every prefix *)
+Lemma score_seq c name : forall (steps : list step_in) s i,
+  find_entry (s_dir s) name (length (s_dir s) / REC_SZ) = Some i ->
+  c_norec c = false -> nth 0 name 0 <> 76 -> locked (rec_filemode (rec_at (s_dir s) i)) = false ->
+  Forall (fun st : step_in => 0 < snd st) steps ->
+  -100 <= rec_score (rec_at (s_dir s) i) <= 100 ->
+  let s' := run_seq c name steps s in
+  rec_score (rec_at (s_dir s') i) = score_after (rec_score (rec_at (s_dir s) i)) steps /\
+  -100 <= rec_score (rec_at (s_dir s') i) <= 100.
+Proof.
+  induction steps as [|[[[ct content] clock] mt] r IH]; intros s i Hf Hn Hl Hk Hm Hs; cbv zeta.
+  - cbn. split; [reflexivity|exact Hs].
+  - inversion Hm as [|? ? Hm1 Hm2]; subst. cbn [snd] in Hm1. cbn [run_seq].
+    pose proof (find_entry_lt _ _ _ _ Hf) as Hi.
+    assert (Hacc : exists line s1, recommend c name ct content clock mt s = COk line s1).
+    { unfold recommend. rewrite Hf. destruct (length (s_dir s) / REC_SZ =? 0)%nat eqn:E0; [apply Nat.eqb_eq in E0; lia|].
+      rewrite Hn, Hk. assert (E : (nth 0 name 0 =? 76) = false) by lia. rewrite E. cbn [orb]. eexists. eexists. reflexivity. }
+    destruct Hacc as (line & s1 & Hacc). rewrite Hacc. cbn [next_state].
+    destruct (index_frame _ _ _ _ _ _ _ _ _ Hacc) as (i' & Hf' & Hlen & Hfr). rewrite Hf in Hf'. injection Hf' as <-.
+    destruct (score_step _ _ _ _ _ _ _ _ _ _ Hacc Hf Hm1 Hs) as (Hsc & Hrng & _).
+    pose proof (frame_names (s_dir s) (s_dir s1) i Hlen Hfr) as Hnm.
+    assert (Hf1 : find_entry (s_dir s1) name (length (s_dir s1) / REC_SZ) = Some i).
+    { rewrite Hlen. rewrite (find_entry_ext (s_dir s) (s_dir s1) name); [exact Hf|]. intros k Hk'. apply Hnm. exact Hk'. }
+    assert (Hk1 : locked (rec_filemode (rec_at (s_dir s1) i)) = false) by (rewrite (proj2 (Hnm i Hi)); exact Hk).
+    specialize (IH s1 i Hf1 Hn Hl Hk1 Hm2 Hrng). cbv zeta in IH. destruct IH as [IH1 IH2].
+    split; [|exact IH2]. rewrite IH1. unfold score_after. cbn [fold_left fst]. rewrite Hsc. reflexivity.
+Qed.
+
+(* ---------------------------------------------------------------- non-vacuity: a one-entry index at score 99, a push, then another *)
+Definition ex_name : list Z := fixlen 28 [77; 46; 49; 54; 48; 55; 50; 48; 48; 48; 48; 48; 46; 65; 46; 48; 48; 68].
+Definition ex_dir : list Z := patch (fixlen 128 ex_name) 33 [99].
+Definition ex_cfg : cfg := Cfg false false false (fixlen 13 [65; 49]) (fixlen 16 []).
+Definition ex_state : st := St [120; 10] ex_dir.
+Definition ex_clock : list Z := [48; 57; 47; 51; 48; 32; 49; 50; 58; 51; 52].
+
+Example ex_accepts : find_entry (s_dir ex_state) ex_name (length (s_dir ex_state) / REC_SZ) = Some 0%nat /\
+  rec_score (rec_at (s_dir ex_state) 0) = 99 /\
+  exists line s', recommend ex_cfg ex_name 1 [104; 105] ex_clock 1700000000 ex_state = COk line s' /\
+    rec_score (rec_at (s_dir s') 0) = 100 /\ length line = 103%nat.
+Proof. split; [vm_compute; reflexivity|]. split; [vm_compute; reflexivity|]. eexists. eexists. split; [vm_compute; reflexivity|]. split; vm_compute; reflexivity. Qed.
+
+Example ex_saturates :
+  rec_score (rec_at (s_dir (run_seq ex_cfg ex_name [(1, [104], ex_clock, 1700000000); (1, [], ex_clock, 1700000001); (2, [], ex_clock, 1700000002)] ex_state)) 0) = 99.
+Proof. vm_compute. reflexivity. Qed.
